@@ -85,14 +85,36 @@ def check_process(run, cx, cfg):
         if more == ('int', 1, 'isize'):
             # one neighbour: either skipped (self edge) or pushed
             eqs = [(k, e) for k, e in call_events(p, effectful_only=False) if e.get('trait') == 'core::cmp::PartialEq' and e['name'] in ('eq', 'ne') and k > ik]
-            if len(eqs) != 1 or sorted(short(deref(p, x)) for x in eqs[0][1]['args']) != sorted([short(n), short(in_n)]):
+            # the self-edge test may sit in a lazy `.filter(|&in_n| !(n == in_n))` on the neighbour iterator instead of the loop body
+            filt = [(k, e) for k, e in evs if is_call(e, ITER, 'filter') and e['args'][0] == ('ret', nbrs[0][0]) and nbrs[0][0] < k < ik]
+            if not eqs and len(filt) == 1 and filt[0][1]['args'][1][0] == 'agg':
+                cps = returning(cx.closure_paths(filt[0][1]['args'][1], p, [('ref', (('L', 'cand', 0), ()))]))
+                okf = False
+                if len(cps) == 1 and not call_events(cps[0]):
+                    r = cps[0]['ret']
+                    neg = False
+                    while r[0] == 'un' and r[1] == 'Not':
+                        r, neg = r[2], not neg
+                    if r[0] == 'app' and r[1] in ('core::cmp::PartialEq::eq', 'core::cmp::PartialEq::ne'):
+                        keeps_other = (r[1].endswith('::ne')) != neg
+                        ops = sorted(short(strip_epoch(deref(cps[0], x)) if x[0] == 'ref' else x) for x in r[2])
+                        cand = short(('deref', ('ref', (('L', 'cand', 0), ()))))
+                        okf = keeps_other and short(n) in ops and any('cand' in o for o in ops)
+                if not okf:
+                    bad = 'the filter on the neighbour iterator must keep exactly the neighbours that differ from the node itself'
+                    break
+                kinds.add('skip-self')
+                same = ('bool', False)
+                eqs = None
+            elif len(eqs) != 1 or sorted(short(deref(p, x)) for x in eqs[0][1]['args']) != sorted([short(n), short(in_n)]):
                 bad = 'every neighbour must be compared with the node itself (n == in_n) before being used as an input'
                 break
-            same = dict(cond_facts(p)).get(eqs[0][1]['result'])
+            else:
+                same = dict(cond_facts(p)).get(eqs[0][1]['result'])
             if same is None:
                 bad = 'self-edge test not branched on'
                 break
-            is_self = same[1] if eqs[0][1]['name'] == 'eq' else not same[1]
+            is_self = (same[1] if eqs[0][1]['name'] == 'eq' else not same[1]) if eqs else False
             if is_self:
                 if pushes:
                     bad = 'a node\'s own buffers are presented to it as an input (self edge not skipped)'
@@ -196,7 +218,14 @@ def check_sources_sinks(run, cx, cfg):
             if ids and not maps and len(fms) == 1 and fms[0][1]['args'][0] == ('ret', ids[0][0]) and p['ret'] == ('ret', fms[0][0]):
                 # alternative spelling: iterate the existing node identifiers directly (no index scan at all)
                 maps = [(ids[0][0], None)]
+            fused = False
+            if not maps and len(fms) == 1 and fms[0][1]['args'][0][0] == 'agg' and fms[0][1]['args'][0][1][1] == 'core::ops::range::Range' and p['ret'] == ('ret', fms[0][0]):
+                # (0..bound).filter_map(|ix| { let id = g.from_index(ix); .. }): the index conversion happens inside the one closure
+                fused = True
+                maps = [(fms[0][0], {'args': [fms[0][1]['args'][0], None]})]
             if maps and maps[0][1] is None:
+                pass
+            elif fused:
                 pass
             elif len(maps) != 1 or len(fms) != 1 or fms[0][1]['args'][0] != ('ret', maps[0][0]) or p['ret'] != ('ret', fms[0][0]):
                 bad_dir = 'must be (0..bound).map(from_index).filter_map(no neighbour in the given direction)'
@@ -216,15 +245,24 @@ def check_sources_sinks(run, cx, cfg):
                         bad_bound = ('scans indices 0..%s(): NodeIndexable::from_index is only defined below node_bound(), and for graphs with vacant indices '
                                      '(StableGraph after removals) node_count() < node_bound(), so existing nodes are missed and vacant indices are reported' % be['name'])
                 # id closure: from_index(g, ix)
-                c0 = returning(cx.closure_paths(maps[0][1]['args'][1], p, [('ix',)])) if maps[0][1] is not None else None
+                c0 = returning(cx.closure_paths(maps[0][1]['args'][1], p, [('ix',)])) if (maps[0][1] is not None and not fused) else None
                 ok = c0 is None or len(c0) == 1 and len(call_events(c0[0])) == 1 and call_events(c0[0])[0][1]['name'] == 'from_index' and call_events(c0[0])[0][1]['args'][1] == ('ix',)
                 if not ok:
                     bad_dir = 'indices must be converted with g.from_index(ix)'
                 # filter closure
-                c1 = returning(cx.closure_paths(fms[0][1]['args'][1], p, [('id',)]))
+                c1 = returning(cx.closure_paths(fms[0][1]['args'][1], p, [('ix',) if fused else ('id',)]))
                 seen = set()
                 for cp in c1:
                     ce = call_events(cp)
+                    if fused:
+                        # id := g.from_index(ix), computed first; from here on it plays the role of the closure argument
+                        fi_ = [(k, e) for k, e in ce if e['name'] == 'from_index']
+                        if len(fi_) != 1 or fi_[0][1]['args'][1] != ('ix',) or ce[0][0] != fi_[0][0]:
+                            bad_dir = 'indices must be converted with g.from_index(ix)'
+                            break
+                        idt = ('ret', fi_[0][0])
+                        ce = [(k, dict(e, args=[('id',) if a == idt else a for a in e['args']])) for k, e in ce if k != fi_[0][0]]
+                        cp = dict(cp, ret=substitute(cp['ret'], idt, ('id',)) if cp['ret'] is not None else None)
                     nb = [(k, e) for k, e in ce if e['name'] == 'neighbors_directed']
                     nx = [(k, e) for k, e in ce if e['name'] == 'next' and e.get('trait') == ITER]
                     # (`filter` hands the predicate a reference to the id, `filter_map` the id itself)
